@@ -42,7 +42,12 @@ func sxInt(fr *frame, args []value) value {
 	return mkval(types.Int, t)
 }
 
-// sxLen: a dyadic float m/256 with integer m in [-65536, 65536].
+// sxLen: a dyadic float m*2^-sxLenBits with integer m, |m| <= 256*2^sxLenBits,
+// i.e. a multiple of 2^-sxLenBits in [-256, 256]. With sxLenBits = 40 a value
+// has at most 49 significant bits, so sums of a few of them, halves and
+// differences are exact in float64 (53 bits) and equal to the real-arithmetic
+// result the solver works with.
+const sxLenBits = 40
 func sxLen(fr *frame, args []value) value {
 	ps := fr.i.ps
 	name := sxName(args[0])
@@ -51,8 +56,8 @@ func sxLen(fr *frame, args []value) value {
 		return mkval(types.Float64, t)
 	}
 	m := ps.newInput(name, "len", sortInt)
-	ps.addPC(ps.ts.And(ps.ts.RCmp(OpRLe, ps.ts.IntC(-65536), m), ps.ts.RCmp(OpRLe, m, ps.ts.IntC(65536))))
-	x := ps.ts.RMul(ps.ts.RealRat(big.NewRat(1, 256)), ps.ts.ToReal(m))
+	ps.addPC(ps.ts.And(ps.ts.RCmp(OpRLe, ps.ts.IntC(-(256<<sxLenBits)), m), ps.ts.RCmp(OpRLe, m, ps.ts.IntC(256<<sxLenBits))))
+	x := ps.ts.RMul(ps.ts.RealRat(big.NewRat(1, 1<<sxLenBits)), ps.ts.ToReal(m))
 	return mkval(types.Float64, x)
 }
 
